@@ -17,10 +17,10 @@ import (
 
 type gateCtl struct {
 	mu      sync.Mutex
-	held    map[string]bool          // "<peer>/<cid>" -> held
-	ch      chan struct{}            // closed and replaced on every change
-	waiting map[string]int           // how many Gets are currently blocked per key
-	fail    map[string]bool          // "<peer>/<cid>" -> fail the Get
+	held    map[string]bool // "<peer>/<cid>" -> held
+	ch      chan struct{}   // closed and replaced on every change
+	waiting map[string]int  // how many Gets are currently blocked per key
+	fail    map[string]bool // "<peer>/<cid>" -> fail the Get
 }
 
 func newGateCtl() *gateCtl {
